@@ -103,6 +103,7 @@ func alphabet() []record {
 		{tag: "blank", raw: " "},
 		{tag: "garbled", raw: `apparmor="DEN`},
 		{tag: "long-foreign", raw: `syscall=1 comm="x" data=` + long},
+		{tag: "bulk-foreign", raw: "bulk"}, // 90 foreign lines of ~1 KiB: more than one scanner buffer of ordinary lines
 		{tag: "long-apparmor", aa: true, fields: file("DENIED", "open", "foo", "/srv/"+long, "r")},
 		{tag: "dup-of-file-denied", aa: true, fields: file("DENIED", "open", "foo", "/srv/data/a", "r")},
 		{tag: "near-dup-of-file-denied", aa: true, fields: file("DENIED", "open", "foo", "/srv/data/a", "w")},
@@ -119,6 +120,13 @@ const (
 )
 
 func line(r record, seq, carrier int) string {
+	if r.tag == "bulk-foreign" {
+		l := make([]string, 90)
+		for i := range l {
+			l[i] = line(record{tag: "foreign", raw: fmt.Sprintf(`arch=c000003e syscall=%d success=yes comm="x" data=%s`, i, strings.Repeat("y", 1000))}, seq, carrier)
+		}
+		return strings.Join(l, "\n")
+	}
 	body := r.body(seq)
 	ts := fmt.Sprintf("1700000%03d.%03d:%d", seq, seq, 100+seq)
 	if r.user {
@@ -403,11 +411,11 @@ func permutations(n int, f func(p []int)) {
 	rec(0)
 }
 
-func c15() int {
+func c15(shard, of int) int {
 	n := 0
 	names := []string{"/srv/x", "/srv/a b", "/srv/a=b", "/srv/a#b", "/srv/a,b", "/srv/é", `/srv/a"b`, "ABBA", "/srv/name=x", "/srv/a'b",
-		"/srv/a\\b", "/srv/a\tb", "/srv/caf\xe9", "/srv/a\u00a0b", "/srv/a\x01b", "/srv/live '99'", "/srv/end ", "/srv/end=", "/srv/end,"}
-	comms := []string{"cat", "my prog", "ABBA", "a=b", "my\tprog", "'sh'", " sh "}
+		"/srv/a\\b", "/srv/a\tb", "/srv/caf\xe9", "/srv/a\u00a0b", "/srv/a\x01b", "/srv/live '99'", "/srv/end ", "/srv/end=", "/srv/end,", `/srv/end\`, `/srv/end\\`, `/srv/a\"b`}
+	comms := []string{"cat", "my prog", "ABBA", "a=b", "my\tprog", "'sh'", " sh ", `sh\`}
 	profiles := []string{"foo", "foo bar", "DEAD", "foo//null-/srv/x"}
 	optional := [][]kv{
 		{{"requested_mask", "r", false}, {"denied_mask", "r", false}},
@@ -416,6 +424,7 @@ func c15() int {
 		{{"srcname", "/srv/src dir", false}},
 		{{"extra", "lookup of name=DEAD failed", false}},
 	}
+	carrier := carrierAudit
 	check := func(fields []kv, sig string, prefixRecord string) {
 		n++
 		parts := []string{`apparmor="DENIED"`}
@@ -425,11 +434,23 @@ func c15() int {
 			want[f.k] = f.v
 		}
 		parts = append(parts[:2], append([]string{"pid=4242"}, parts[2:]...)...) // the kernel never ends a record with pid
-		text := "type=AVC msg=audit(1700000001.001:101): " + strings.Join(parts, " ") + "\n"
-		if prefixRecord != "" {
-			text = prefixRecord + "\n" + text
+		wrap := func(body, ts string) string {
+			switch carrier {
+			case carrierAudit:
+				return "type=AVC msg=audit(" + ts + "): " + body
+			case carrierSyslog:
+				return "Oct  1 12:00:01 host kernel: [  101.456789] audit: type=1400 audit(" + ts + "): " + body
+			default:
+				b, _ := json.Marshal(map[string]string{"MESSAGE": "audit: type=1400 audit(" + ts + "): " + body, "_TRANSPORT": "kernel"})
+				return string(b)
+			}
 		}
-		got, perr := read(text, carrierAudit, "")
+		text := wrap(strings.Join(parts, " "), "1700000001.001:101") + "\n"
+		if prefixRecord != "" {
+			text = wrap(prefixRecord, "1700000000.000:100") + "\n" + text
+		}
+		sig += " carrier=" + carrierName(carrier)
+		got, perr := read(text, carrier, "")
 		if perr != "" {
 			report("c15-reader-fails", perr, text)
 			return
@@ -476,7 +497,11 @@ func c15() int {
 			}
 		}
 	}
-	for _, name := range names {
+	for carrier = carrierAudit; carrier <= carrierJournald; carrier++ {
+	for ni, name := range names {
+		if (ni*3+carrier)%of != shard {
+			continue
+		}
 		for _, comm := range comms {
 			for _, prof := range profiles {
 				core := []kv{{"operation", "open", false}, {"profile", prof, false}, {"name", name, false}, {"comm", comm, false}}
@@ -498,13 +523,18 @@ func c15() int {
 					}
 				})
 				// preceded by a malformed record (odd number of quotes): nothing may bleed into this one
-				check(core, "after-malformed", `type=AVC msg=audit(1700000000.000:100): apparmor="DENIED" operation="open profile="zzz" name="/srv/other" comm="other" pid=1`)
-				check(core, "after-malformed", `type=AVC msg=audit(1700000000.000:100): apparmor="DENIED" operation="open" profile="zzz" name="/srv/oth`)
+				check(core, "after-malformed", `apparmor="DENIED" operation="open profile="zzz" name="/srv/other" comm="other" pid=1`)
+				check(core, "after-malformed", `apparmor="DENIED" operation="open" profile="zzz" name="/srv/oth`)
 			}
 		}
 	}
+	}
+	carrier = carrierAudit
 	// user-space spelling (dbus-daemon): values with blanks are quoted
 	for _, member := range []string{"Get", "Get All", "a=b"} {
+		if shard != 0 {
+			break
+		}
 		for _, label := range []string{"foo", "foo bar"} {
 			f := []kv{{"operation", "dbus_method_call", false}, {"bus", "session", false}, {"path", "/org/a", false}, {"interface", "org.a", false},
 				{"member", member, false}, {"mask", "send", false}, {"name", ":2.7", false}, {"label", label, false}, {"peer_label", "unconfined", false}}
@@ -550,7 +580,7 @@ func main() {
 	case "c14":
 		n = c14(*minLen, *maxLen, *shard, *of)
 	case "c15":
-		n = c15()
+		n = c15(*shard, *of)
 	case "render":
 		if *emit != "" {
 			A := alphabet()
